@@ -217,11 +217,6 @@ MUTANTS = [
          edits=[(AEAD, ".decrypt_in_place_detached(&nonce.0, aad, ciphertext, &tag.0);",
                  ".decrypt_in_place_detached(&nonce.0, aad, { let n = ciphertext.len(); &mut ciphertext[..n.saturating_sub(0)] }, &tag.0);")],
          expect_note='sub-slice of the buffer parameter'),
-    dict(name='c06-open-trailing-bytes-ignored', expect=[('C06', 'R06.2')],
-         note='open() accepts ciphertext with appended garbage: needs an extended input',
-         edits=[(AEAD, """        let (ciphertext, tag_slice) = ciphertext.split_at(msg_len);""",
-                 """        let (ciphertext, tag_slice) = ciphertext.split_at(msg_len);
-        let tag_slice = &tag_slice[..tag_len];""")]),
     dict(name='c06-single-shot-open-drops-aad', expect=[('C06', 'R06.4'), ('C14', 'R14.1')],
          note='single_shot_open authenticates info instead of aad; only mismatching aad exposes it',
          edits=[(SINGLE, """    // Decrypt
